@@ -62,6 +62,9 @@ def report(chk, recs, verdicts):
                 if ':' in f['why']:
                     shp = ''          # the why already names the root cause (operand form), independent of mnemonic and operand order
                 key = {'clause': f['clause'], 'mn': m0 if specific else '', 'shape': '' if specific else shp, 'why': f['why'], 'site': site}
+            key['feat'] = asmlib.line_features(r['h'], rt['text'])
+            if key['feat'] == '' and not key.get('mn') and f['clause'] in ('C09.asm_intel', 'C09.asm_att'):
+                key['mn'] = m0        # an ordinary 32-bit form without any special feature: the class is per mnemonic
             chk.violation(key, {'bytes': r['h'], 'intel': rt['text'], 'att': rt['att'], 'att_exception': rt.get('attexc'),
                                 'asm_intel': r['ai']['c'][:6], 'asm_att': r['aa']['c'][:6], 'gas_intel': bytes(r['gi']).hex(), 'gas_att': bytes(r['ga']).hex()})
 
